@@ -304,6 +304,7 @@ fn decode_ty(ty: &Ty, bytes: &[u8]) -> Option<Value> {
         Ty::Str => from_json::<String>(bytes).ok().map(|v| json!(v)),
         Ty::Opt(inner) if **inner == Ty::U32 => from_json::<Option<u32>>(bytes).ok().map(|v| json!(v)),
         Ty::Opt(inner) if **inner == Ty::Rec => from_json::<Option<crate::types::Rec>>(bytes).ok().map(|v| serde_json::to_value(v).unwrap()),
+        Ty::Binary => from_json::<sylvia::cw_std::Binary>(bytes).ok().map(|v| serde_json::to_value(v).unwrap()),
         other => panic!("decode_ty: unsupported data type {other:?}"),
     }
 }
